@@ -184,8 +184,8 @@ def run(chk, tier):
         if fk is None:
             bad = [(o["file"], o["kind"]) for o in r.obs if o["st"] != "complete" and (o["file"], o["kind"]) in case.faults]
             bad += [(f, k) for (f, k, op) in r.failed_ops]
-            cand = [x for x in sorted(case.faults, key=lambda x: (dt.KINDS.index(x[1]), x[0])) if x in bad] or \
-                   sorted(case.faults, key=lambda x: (dt.KINDS.index(x[1]), x[0]))
+            cand = [x for x in sorted(case.faults, key=lambda x: (dt.KINDS_ALL.index(x[1]), x[0])) if x in bad] or \
+                   sorted(case.faults, key=lambda x: (dt.KINDS_ALL.index(x[1]), x[0]))
             if not cand:        # a fault-free run: the first requested output that is not where it should be
                 cand = [(o["file"], o["kind"]) for o in r.obs if o["st"] != "complete"]
             fk = cand[0] if cand else (0, "none")
